@@ -162,7 +162,7 @@ def random_ctxs(rng, uids=(0, 1000, 65534)):
     base = [rule('send', True), rule('recv', True), rule('own', True)] if rng.random() < 0.6 else []
     ctxs.append(['default', 0, base + [random_rule(rng) for _ in range(rng.randint(0, 4))]])
     for _ in range(rng.randint(0, 3)):
-        c = rng.choice(['user', 'user', 'group', 'default', 'console_f', 'mandatory'])
+        c = rng.choice(['user', 'user', 'group', 'group', 'group', 'default', 'console_f', 'mandatory'])
         ident = rng.choice(uids) if c == 'user' else rng.choice([0, 1000, 2, 2, 3, 3, 65534]) if c == 'group' else 0
         ctxs.append([c, ident, [random_rule(rng) for _ in range(rng.randint(1, 3))]])
     if rng.random() < 0.7:
